@@ -13,9 +13,10 @@ package percolator
 
 //@ func DecodeWrite
 //@   property C16
-//@   tag decoder
+//@   tag decoder ghost-pure
 //@   alloc data
 //@   ensures [total] true
+//@   modifies nothing
 
 // C19: a lock expires exactly when currentTs >= Ts + TTL in mathematical integers
 // (TTL == 0 never expires); no wrap-around.
@@ -161,3 +162,42 @@ package percolator
 //@   requires latches == nil || len(latches.stripes) > 0
 //@   ensures [rolled-back-fails] sawRollback && !old(sawRollback) ==> result != nil
 //@   loop 1 invariant [no-rollback-seen-yet] sawRollback == old(sawRollback)
+
+// ---- C17 kernel: which write record a read at readTs selects ----
+// The selection callback of getWriteForRead (run by scanWrites on every write record of the
+// key): it never selects a rollback marker or a lock-only commit, only a record at or
+// below the read timestamp and newer than the one selected so far, and it selects every
+// such record. (result, commitTs, readTs are the captured variables; w, ts the record
+// under inspection.)
+//@ func (*Reader).getWriteForRead$1
+//@   property C17
+//@   ensures [keeps-scanning] ret
+//@   ensures [selected-is-a-copy-of-the-record] result != old(result) ==> result != nil && int32(result.Kind) == int32(w.Kind) && result.StartTs == w.StartTs
+//@   ensures [never-selects-a-marker] result != old(result) ==> int32(w.Kind) != 3 && int32(w.Kind) != 2
+//@   ensures [selects-only-at-or-below-readTs] result != old(result) ==> ts <= readTs && commitTs == ts
+//@   ensures [selects-only-newer] result != old(result) ==> old(result) == nil || ts > old(commitTs)
+//@   ensures [keeps-selection-otherwise] result == old(result) ==> commitTs == old(commitTs)
+//@   ensures [selects-every-newer-data-record] int32(w.Kind) != 3 && int32(w.Kind) != 2 && ts <= readTs && (old(result) == nil || ts > old(commitTs)) ==> result != old(result)
+
+// GetValue answers from the selected record only: a selected delete (or no record) is
+// "not found"; otherwise the data stored at the selected record's start timestamp.
+//@ ghost var readSelections Int
+//@ ghost var lastSelectedFound bool
+//@ ghost var lastSelectedKind int32
+//@ ghost var lastSelectedStartTs uint64
+//@ func (*Reader).getWriteForRead
+//@   trusted
+//@   ghost readSelections = readSelections + 1
+//@   ghost lastSelectedFound = result != nil
+//@   ghost lastSelectedKind = (result != nil ? int32(result.Kind) : 0)
+//@   ghost lastSelectedStartTs = (result != nil ? result.StartTs : 0)
+//@   ensures [error-means-no-record] result2 != nil ==> result == nil
+//@   ensures [never-a-marker] result != nil ==> int32(result.Kind) != 3 && int32(result.Kind) != 2
+//@   modifies nothing
+//@ ghost var defaultReads Int
+//@ ghost var lastDefaultReadTs uint64
+//@ func (*Reader).GetValue
+//@   property C17
+//@   requires r != nil
+//@   ensures [value-comes-from-the-selected-data-record] result1 == nil ==> readSelections == old(readSelections) + 1 && lastSelectedFound && lastSelectedKind != 1 && lastSelectedKind != 2 && lastSelectedKind != 3 && defaultReads == old(defaultReads) + 1 && lastDefaultReadTs == lastSelectedStartTs
+//@   ensures [selected-delete-or-nothing-is-not-found] readSelections == old(readSelections) + 1 && (!lastSelectedFound || lastSelectedKind == 1) ==> result1 != nil && defaultReads == old(defaultReads)
